@@ -659,12 +659,18 @@ pub fn deep_doc(kind: DeepKind, depth: usize) -> Vec<u8> {
 			v.extend_from_slice(b"\"}");
 		}
 		DeepKind::FlatLongNumber => {
+			// exactly `depth` digits in each of the three parts
+			let digits = |v: &mut Vec<u8>, pair: &[u8; 2]| {
+				for j in 0..depth.max(1) {
+					v.push(pair[j % 2]);
+				}
+			};
 			v.extend_from_slice(b"[-");
-			rep(&mut v, b"12", depth / 6 + 1);
+			digits(&mut v, b"12");
 			v.extend_from_slice(b".");
-			rep(&mut v, b"05", depth / 6 + 1);
+			digits(&mut v, b"05");
 			v.extend_from_slice(b"E+");
-			rep(&mut v, b"90", depth / 6 + 1);
+			digits(&mut v, b"90");
 			v.extend_from_slice(b"]");
 		}
 		DeepKind::FlatItems => {
